@@ -286,7 +286,7 @@ def rule_r5_body(body, counts):
 def rule_r5t_body(body, counts):
     """R5 (try_for_each): statement `E.iter().try_for_each(|x| { B })?;` -> `for x in E.iter() { ({ B })?; }`
     (definition of Iterator::try_for_each on Result: stop at the first Err and return it)."""
-    pat = re.compile(r'(?P<ind>^[ \t]*)(?P<e>[A-Za-z_][\w\.]*?)\.(?P<it>iter|keys)\(\)\.try_for_each\(\|(?P<x>\w+)\|\s*\{', re.M)
+    pat = re.compile(r'(?P<ind>^[ \t]*)(?P<e>[A-Za-z_][\w\.]*?)\.(?P<it>iter|keys)\(\)\.try_for_each\(\|(?P<x>\w+|\([\w, ]+\))\|\s*\{', re.M)
     while True:
         m = pat.search(body)
         if not m:
@@ -1509,6 +1509,27 @@ def emit_fn(d, unit, report, canaries):
                     pos = open_idx + 1 + len(new_inner)
                     n_calls += 1
             counts['Rcall'] = counts.get('Rcall', 0) + n_calls
+    for name, argstr, text in d.sections:
+        if name == 'implicitdrop':
+            # Rdrop: Rust drops a local value at the end of its scope unless it was moved out; Verus does not model that call. For a local
+            # bound by `let X = <CTOR>(..);` every block result `None` in its scope (X not moved into the result) gets the explicit call
+            # `<STUB>(X, ..)` in front; X may otherwise only occur as `Some(X)` (moved into the result) - anything else is refused.
+            ctor, stub, extra = (argstr.split() + ['', ''])[:3]
+            for m in list(re.finditer(r'^[ \t]*let (\w+) = %s\(' % re.escape(ctor), body, flags=re.M)):
+                x = m.group(1)
+                lines_ = body.split('\n')
+                li = body[:m.start()].count('\n')
+                uses = [l for l in lines_[li + 1:] if re.search(r'\b%s\b' % re.escape(x), re.sub(r'//.*', '', l))]
+                if any(not re.fullmatch(r'\s*Some\(%s\)\s*' % re.escape(x), re.sub(r'//.*', '', l)) for l in uses):
+                    raise ExtractError('Rdrop: %s is used other than as the result Some(%s)' % (x, x))
+                n = 0
+                for k in range(li + 1, len(lines_)):
+                    if re.fullmatch(r'\s*None\s*', re.sub(r'//.*', '', lines_[k])):
+                        ind = re.match(r'\s*', lines_[k]).group(0)
+                        lines_[k] = ind + '%s(%s%s); // [Rdrop] end of scope of `%s`\n' % (stub, x, (', ' + extra) if extra else '', x) + lines_[k]
+                        n += 1
+                body = '\n'.join(lines_)
+                counts['Rdrop'] = counts.get('Rdrop', 0) + n
     for name, argstr, text in d.sections:
         if name == 'ascribe':
             # R12: add a type annotation to a `let` (needed when ghost code mentions the variable before Rust infers its type)
